@@ -478,11 +478,39 @@ func (u *Unit) condContextParts(n ast.Node) []string {
 			}
 			parts = append(parts, u.ctxPart(child == ast.Node(s.Body), s.Cond))
 		case *ast.SwitchStmt:
-			if s.Tag != nil || i+2 >= len(path) {
+			if i+2 >= len(path) {
 				continue
 			}
 			cc, ok := path[i+2].(*ast.CaseClause)
 			if !ok {
+				continue
+			}
+			if s.Tag != nil {
+				// `switch x { case c: …}` is `if x == c {…}`; the default clause is the else of every case
+				tag := u.argShape(s.Tag, s.Tag, 3)
+				eq := func(e ast.Expr) string {
+					l, r := tag, u.argShape(e, e, 3)
+					if l > r {
+						l, r = r, l
+					}
+					return l + "==" + r
+				}
+				if len(cc.List) == 0 {
+					for _, st := range s.Body.List {
+						for _, e := range st.(*ast.CaseClause).List {
+							parts = append(parts, "else("+eq(e)+")")
+						}
+					}
+				} else if len(cc.List) == 1 {
+					parts = append(parts, "if("+eq(cc.List[0])+")")
+				} else {
+					var alts []string
+					for _, e := range cc.List {
+						alts = append(alts, "if("+eq(e)+")")
+					}
+					sort.Strings(alts)
+					parts = append(parts, "any("+strings.Join(alts, "|")+")")
+				}
 				continue
 			}
 			// clauses before cc are the failed alternatives
